@@ -97,7 +97,7 @@ UniversalString__dump(const UniversalString_t *st, int xml_escape,
 	ch = st->buf;
 	end = (st->buf + st->size);
 	for(end -= 3; ch < end; ch += 4) {
-		uint32_t wc =     (ch[0] << 24)
+		uint32_t wc =     ((uint32_t)ch[0] << 24)
 				| (ch[1] << 16)
 				| (ch[2] << 8)
 				|  ch[3];	/* 4 bytes */
